@@ -19,6 +19,7 @@ RULES = {
     "T5": E.rule_T5,
     "T6": T.rule_T6,
     "T13": T.rule_T13,
+    "T14": S.rule_T14,
     "N4": T.rule_N4,
     "T8": C.rule_T8,
     "T9": B.rule_T9,
@@ -104,12 +105,14 @@ PROPS = {
         "SimpleGarnishData's value list is append-only. Correctness for every interleaving/growth policy and interning are not decided.",
     },
     "C16": {
-        "rules": ["G4"],
+        "rules": ["G4", "T14"],
         "claim": "Decides the 'absent is not an error' clause of C16: inside both implementations of get_list_item / "
         "get_list_item_with_symbol / get_list_len / get_list_item_iter, their list helpers, and the runtime's index_list / "
         "access_with_symbol, the locally constructed errors are exactly the reviewed ones (not-a-list, corrupt cell); any other "
-        "constructed error - in particular one that depends on the index value or the item kind - is reported. Order, length and "
-        "that every present key is found are not decided.",
+        "constructed error - in particular one that depends on the index value or the item kind - is reported; and every "
+        "match-based comparator the data crate hands to a sort or binary search (the association slots of a list, the two symbol "
+        "tables) is antisymmetric: mirrored arguments get opposite orderings (T14) - a necessary condition for the sorted prefix the "
+        "key lookup searches. Order, length and that every present key is found are not decided beyond that.",
     },
     "C11": {
         "rules": ["T5", "D1"],
